@@ -517,8 +517,8 @@ fn bad_number_apply(target: &Option<Corrupt>, sec: u8, k: &mut usize, s: String)
     s
 }
 
-const COL_NAMES: [&str; 14] = ["x", "x1", "y.2", "COL.A", "7", "42", "OMMX_VAR_3", "OMMX_VAR_x", "z_", "Var[1,2]", "a-b", "OMMX_VAR_10", "w", "x10"];
-const ROW_NAMES: [&str; 12] = ["c1", "LIM.1", "17", "R2", "OMMX_CONSTR_5", "cap(3)", "r", "MYEQN", "row-3", "0", "OMMX_CONSTR_a", "lim2"];
+const COL_NAMES: [&str; 17] = ["x", "x1", "y.2", "COL.A", "7", "42", "OMMX_VAR_3", "OMMX_VAR_x", "z_", "Var[1,2]", "a-b", "OMMX_VAR_10", "w", "x10", "変数1", "naïve", "x°"];
+const ROW_NAMES: [&str; 14] = ["c1", "LIM.1", "17", "R2", "OMMX_CONSTR_5", "cap(3)", "r", "MYEQN", "row-3", "0", "OMMX_CONSTR_a", "lim2", "制約", "é1"];
 
 pub fn gen_model(rng: &mut Rng) -> MpsModel {
     let nrows = *rng.pick(&[0usize, 1, 1, 2, 2, 3, 4, 5]);
